@@ -3,7 +3,7 @@
     represented by the model's [forward_bounds_ok] (hybrid; the wrapper [ForwardBounds] is abstracted to
     the bounds list it holds). Hand-written. *)
 From Coq Require Import ZArith Bool List.
-From TucModel Require Import Base.Bytes Model.Bounds Model.Scan Model.Regex Model.Opt Model.Stream Tie.RsPrelude.
+From TucModel Require Import Base.Bytes Model.Bounds Model.Scan Model.Regex Model.Opt Model.Stream Model.FastLane Tie.RsPrelude.
 Import ListNotations.
 
 Record gfopt := mkGFO { gf_delim : byte; gf_join : bool; gf_eol : byte; gf_bounds : ublist;
@@ -17,3 +17,8 @@ Definition opt_mapM {A B} (f : A -> rs B) (o : option A) : rs (option B) :=
 
 Definition model_forward_try_from (u : ublist) : rs (option ublist) :=
   Ret (if forward_bounds_ok (items u) then Some u else None).
+
+(** [memchr::memchr_iter(d, buf)]: the offsets of the byte [d] (the model's [positions_from]);
+    [trim(buf, kind, d)] of src/cut_str.rs is not translated: the model's [trim_lit] stands for it (hybrid). *)
+Definition memchr_iter (d : byte) (buf : bytes) : list Z := map Z.of_nat (positions_from d 0 buf).
+Definition model_trim (buf : bytes) (k : trimk) (d : byte) : rs bytes := Ret (trim_lit k [d] buf).
